@@ -102,7 +102,8 @@ def worker_shape(fn):
             out.append(norm(st, r))
         else:
             out.append(norm(st, roles))
-    return norm(open_expr, roles), out
+    ctx_items = [norm(it.context_expr, roles) for it in withs[0].items]
+    return norm(open_expr, roles), out, ctx_items
 
 
 def dispatcher_reset(fn):
@@ -207,8 +208,8 @@ def generate(src_dir):
         raise Unclassified("appe: mode argument is not a string literal")
     appe_mode = mode_arg.value
 
-    stor_open, stor_body = worker_shape(nested_fn(stor, "stor_worker"))
-    retr_open, retr_body = worker_shape(nested_fn(retr, "retr_worker"))
+    stor_open, stor_body, stor_ctx = worker_shape(nested_fn(stor, "stor_worker"))
+    retr_open, retr_body, retr_ctx = worker_shape(nested_fn(retr, "retr_worker"))
     rest_body = offset_assignments(rest)
     reset = dispatcher_reset(disp)
 
@@ -289,6 +290,8 @@ def generate(src_dir):
         ("xf_appe_mode", S(appe_mode)),
         ("xf_stor_body", slist(stor_body)),
         ("xf_retr_body", slist(retr_body)),
+        ("xf_stor_ctx", slist(stor_ctx)),
+        ("xf_retr_ctx", slist(retr_ctx)),
         ("xf_stor_open", S(stor_open)),
         ("xf_retr_open", S(retr_open)),
         ("xf_rest_body", slist(rest_body)),
